@@ -37,6 +37,10 @@
 (*    ends the subscription with an error), pause/resume and restart (the   *)
 (*    partition gets a new handler with the master key that is in the       *)
 (*    environment THEN), change of the environment, tampering on disk.      *)
+(*    The stream may be replicated (Replicas): replication carries the      *)
+(*    stored form, every replica has its own partition object and handler,  *)
+(*    a subscriber may be served by an in-sync follower, the leadership may  *)
+(*    move to another replica, which then seals.                            *)
 EXTENDS Integers, Sequences, FiniteSets
 
 CONSTANTS BoundsChecked,   \* TRUE: Read as repaired (fix: commit); FALSE: as pinned (index/slice panics)
@@ -206,29 +210,36 @@ NewT(m) == m \in {16, 32}
 
 -----------------------------------------------------------------------------
 (* PIPELINE *)
-CONSTANTS Keys             \* valid master keys, e.g. {"k1", "k2"}; "bad" = unset / wrong length
+CONSTANTS Keys,            \* valid master keys, e.g. {"k1", "k2"}; "bad" = unset / wrong length
+          Replicas         \* servers holding a replica of both streams, e.g. {"a"} or {"a", "b"}
 
 Streams == {"enc", "plain"}
 Classes == {"empty", "short", "long"}     \* 0 bytes, 1..15 bytes, >= 16 bytes
 
-VARIABLES up,       \* the server process is alive
+VARIABLES up,       \* every server process is alive
           env,      \* master key in the environment variable: a key of Keys or "bad"
-          hk,       \* per stream: master key of the partition's handler ("none": no handler)
+          lead,     \* per stream: the replica that leads the partition
+          hk,       \* per replica, per stream: master key of the handler of that server's partition object
+                    \* ("none": no handler).  EVERY replica of an encrypted stream has one: it may have to
+                    \* serve subscribers (ReadISRReplica) and may become the leader.
           paused,   \* per stream
-          log,      \* per stream: what the partition log holds, entries [v, k, clear]:
+          log,      \* per replica, per stream: what that server's partition log holds, entries [v, k, clear]:
                     \*   v value id it carries (0: none), k master key it opens under / "plain" / "none",
                     \*   clear: the raw stored value contains (>= 16 bytes) or equals (>= 1 byte) a published value
           obs       \* observable result of the last call
 
-vars == <<up, env, hk, paused, log, obs>>
+vars == <<up, env, lead, hk, paused, log, obs>>
+
+Reps == DOMAIN hk          \* the replica set of the behaviour at hand (a recorded behaviour brings its own)
 
 Entry(v, k, clear) == [v |-> v, k |-> k, clear |-> clear]
 
 Init ==
   /\ up = TRUE /\ env \in Keys
-  /\ hk = [s \in Streams |-> IF s = "enc" THEN env ELSE "none"]
+  /\ lead \in [Streams -> Replicas]
+  /\ hk = [r \in Replicas |-> [s \in Streams |-> IF s = "enc" THEN env ELSE "none"]]
   /\ paused = [s \in Streams |-> FALSE]
-  /\ log = [s \in Streams |-> <<>>]
+  /\ log = [r \in Replicas |-> [s \in Streams |-> <<>>]]
   /\ obs = [a |-> "Open"]
 
 \* the values of a batch that are not hit by an injected seal failure, in order
@@ -236,109 +247,125 @@ Keep(vals, fails) ==
   LET F[i \in 0..Len(vals)] == IF i = 0 THEN <<>> ELSE IF i \in fails THEN F[i - 1] ELSE Append(F[i - 1], vals[i])
   IN F[Len(vals)]
 
-(* messageProcessingLoop: every message of a batch is sealed on its own     *)
-(* (three code sites: first message, drained message, awaited message),     *)
-(* a seal error is answered with a negative ack and the message is skipped, *)
-(* the rest is appended.  An unencrypted partition appends verbatim.        *)
+(* messageProcessingLoop of the LEADER: every message of a batch is sealed  *)
+(* on its own with the leader's handler (three code sites: first message,   *)
+(* drained message, awaited message), a seal error is answered with a       *)
+(* negative ack and the message is skipped, the rest is appended.  An       *)
+(* unencrypted partition appends verbatim.  Replication carries the stored  *)
+(* form: once the publish is acknowledged by all replicas, every replica's  *)
+(* log has the same new entries.                                            *)
 DoPublish(s, vals, fails) ==
   /\ up /\ ~paused[s]
   /\ (s = "plain" => fails = {})
-  /\ LET acc == Keep(vals, fails) IN
-     log' = [log EXCEPT ![s] = @ \o [j \in 1..Len(acc) |->
-                Entry(acc[j].id, IF s = "enc" THEN hk[s] ELSE "plain", s = "plain" /\ acc[j].cls # "empty")]]
+  /\ LET acc == Keep(vals, fails)
+         new == [j \in 1..Len(acc) |->
+                   Entry(acc[j].id, IF s = "enc" THEN hk[lead[s]][s] ELSE "plain", s = "plain" /\ acc[j].cls # "empty")] IN
+     log' = [r \in Reps |-> [log[r] EXCEPT ![s] = @ \o new]]
   /\ obs' = [a |-> "Publish", acks |-> [i \in 1..Len(vals) |-> IF i \in fails THEN "nack" ELSE "ack"]]
-  /\ UNCHANGED <<up, env, hk, paused>>
+  /\ UNCHANGED <<up, env, lead, hk, paused>>
 
 P_Publish(s, vals, fails) ==
   LET acc == Keep(vals, fails) IN
   /\ up'
   /\ obs'.acks = [i \in 1..Len(vals) |-> IF i \in fails THEN "nack" ELSE "ack"]   \* seal failure <=> negative ack
-  /\ Len(log'[s]) = Len(log[s]) + Len(acc)                                        \* ... and nothing stored for it
-  /\ SubSeq(log'[s], 1, Len(log[s])) = log[s]
-  /\ \A t \in Streams \ {s} : log'[t] = log[t]
-  /\ s = "enc" => \A j \in (Len(log[s]) + 1)..Len(log'[s]) : ~log'[s][j].clear
-  /\ UNCHANGED <<env, hk, paused>>
+  /\ \A r \in Reps :
+       /\ Len(log'[r][s]) = Len(log[r][s]) + Len(acc)                             \* ... and nothing stored for it
+       /\ SubSeq(log'[r][s], 1, Len(log[r][s])) = log[r][s]
+       /\ \A t \in Streams \ {s} : log'[r][t] = log[r][t]
+       /\ s = "enc" => \A j \in (Len(log[r][s]) + 1)..Len(log'[r][s]) : ~log'[r][s][j].clear
+  /\ UNCHANGED <<env, lead, hk, paused>>
 
-\* the entries a subscriber can be given: the handler of the partition opens them
-Readable(s, e) == s = "plain" \/ (e.k = hk[s] /\ hk[s] \in Keys)
-Lead(s, tail) == CHOOSE m \in 0..Len(tail) : /\ \A j \in 1..m : Readable(s, tail[j])
-                                             /\ m = Len(tail) \/ ~Readable(s, tail[m + 1])
+\* the entries a subscriber served by replica `at` can be given: the handler of that server's partition opens them
+Readable(s, at, e) == s = "plain" \/ (e.k = hk[at][s] /\ hk[at][s] \in Keys)
+Lead(s, at, tail) == CHOOSE m \in 0..Len(tail) : /\ \A j \in 1..m : Readable(s, at, tail[j])
+                                                 /\ m = Len(tail) \/ ~Readable(s, at, tail[m + 1])
 
-(* a subscriber from offset `from`: forward up to the newest message, or in  *)
-(* reverse down to the oldest (the read path of the cursors stream): every  *)
-(* entry is Read before delivery; the first entry that cannot be read ends  *)
-(* the subscription with an error                                           *)
+(* a subscriber from offset `from`, served by replica `at` (the leader, or  *)
+(* an in-sync follower when the subscriber opts in with ReadISRReplica):    *)
+(* forward up to the newest message, or in reverse down to the oldest (the  *)
+(* read path of the cursors stream): every entry is Read before delivery;   *)
+(* the first entry that cannot be read ends the subscription with an error  *)
 Rev(q) == [j \in 1..Len(q) |-> q[Len(q) + 1 - j]]
-Range(s, from, rev) == IF rev THEN Rev(SubSeq(log[s], 1, from + 1)) ELSE SubSeq(log[s], from + 1, Len(log[s]))
+Range(s, at, from, rev) == IF rev THEN Rev(SubSeq(log[at][s], 1, from + 1)) ELSE SubSeq(log[at][s], from + 1, Len(log[at][s]))
 
-DoSubscribe(s, from, rev) ==
-  /\ up /\ ~paused[s] /\ from \in 0..(Len(log[s]) - 1)
-  /\ LET tail == Range(s, from, rev)
-         m == Lead(s, tail) IN
+DoSubscribe(s, from, rev, at) ==
+  /\ up /\ ~paused[s] /\ at \in Reps /\ from \in 0..(Len(log[at][s]) - 1)
+  /\ LET tail == Range(s, at, from, rev)
+         m == Lead(s, at, tail) IN
      obs' = [a |-> "Subscribe", got |-> [j \in 1..m |-> tail[j].v], end |-> IF m < Len(tail) THEN "err" ELSE "eos"]
-  /\ UNCHANGED <<up, env, hk, paused, log>>
+  /\ UNCHANGED <<up, env, lead, hk, paused, log>>
 
 \* exactly the published values, in order, up to the first entry that is tampered / under another
-\* master key, where the subscription ends with an error and delivers nothing further
-P_Subscribe(s, from, rev) ==
+\* master key, where the subscription ends with an error and delivers nothing further - whichever
+\* replica serves the subscriber
+P_Subscribe(s, from, rev, at) ==
   /\ up'
-  /\ LET tail == Range(s, from, rev)
-         m == Lead(s, tail) IN
+  /\ LET tail == Range(s, at, from, rev)
+         m == Lead(s, at, tail) IN
      /\ obs'.got = [j \in 1..m |-> tail[j].v]
      /\ obs'.end = (IF m < Len(tail) THEN "err" ELSE "eos")
-  /\ UNCHANGED <<env, hk, paused, log>>
+  /\ UNCHANGED <<env, lead, hk, paused, log>>
 
 DoPause(s) ==
   /\ up /\ ~paused[s]
   /\ paused' = [paused EXCEPT ![s] = TRUE]
   /\ obs' = [a |-> "Pause"]
-  /\ UNCHANGED <<up, env, hk, log>>
+  /\ UNCHANGED <<up, env, lead, hk, log>>
 
-\* resume replaces the partition object: a new handler is built from the environment
+\* resume replaces the partition object on every replica: new handlers are built from the environment
 DoResume(s) ==
   /\ up /\ paused[s] /\ env \in Keys
   /\ paused' = [paused EXCEPT ![s] = FALSE]
-  /\ hk' = [hk EXCEPT ![s] = IF s = "enc" THEN env ELSE "none"]
+  /\ hk' = [r \in Reps |-> [hk[r] EXCEPT ![s] = IF s = "enc" THEN env ELSE "none"]]
   /\ obs' = [a |-> "Resume"]
-  /\ UNCHANGED <<up, env, log>>
+  /\ UNCHANGED <<up, env, lead, log>>
 
 \* the environment variable changes; handlers that exist keep the key they were built with
 DoSetEnv(k) ==
   /\ env' = k
   /\ obs' = [a |-> "SetEnv"]
-  /\ UNCHANGED <<up, hk, paused, log>>
+  /\ UNCHANGED <<up, lead, hk, paused, log>>
 
-\* server stopped and started again on the same data directory
+\* every server stopped and started again on the same data directory
 DoRestart ==
   /\ up /\ env \in Keys
-  /\ hk' = [s \in Streams |-> IF s = "enc" THEN env ELSE "none"]
+  /\ hk' = [r \in Reps |-> [s \in Streams |-> IF s = "enc" THEN env ELSE "none"]]
   /\ obs' = [a |-> "Restart"]
-  /\ UNCHANGED <<up, env, paused, log>>
+  /\ UNCHANGED <<up, env, lead, paused, log>>
 
-\* a byte of the stored value of entry j of the encrypted stream is altered in the segment file
-DoTamper(j) ==
-  /\ up /\ ~paused["enc"] /\ j \in 1..Len(log["enc"])
-  /\ log' = [log EXCEPT !["enc"][j] = Entry(0, "none", FALSE)]
+\* the partition gets another leader from the in-sync replicas (the follower reported the leader):
+\* roles change, the partition objects - and their handlers - stay
+DoLeaderChange(s) ==
+  /\ up /\ ~paused[s] /\ Cardinality(Reps) > 1
+  /\ \E r \in Reps \ {lead[s]} : lead' = [lead EXCEPT ![s] = r]
+  /\ obs' = [a |-> "LeaderChange"]
+  /\ UNCHANGED <<up, env, hk, paused, log>>
+
+\* a byte of the stored value of entry j of the encrypted stream is altered in a segment file of replica r
+DoTamper(r, j) ==
+  /\ up /\ ~paused["enc"] /\ r \in Reps /\ j \in 1..Len(log[r]["enc"])
+  /\ log' = [log EXCEPT ![r]["enc"][j] = Entry(0, "none", FALSE)]
   /\ obs' = [a |-> "Tamper"]
-  /\ UNCHANGED <<up, env, hk, paused>>
+  /\ UNCHANGED <<up, env, lead, hk, paused>>
 
 \* a request to create a further encrypted stream is refused unless a valid master key is configured
 DoCreateProbe ==
   /\ up
   /\ obs' = [a |-> "CreateProbe", ok |-> env \in Keys]
-  /\ UNCHANGED <<up, env, hk, paused, log>>
+  /\ UNCHANGED <<up, env, lead, hk, paused, log>>
 
-P_Quiet == up' /\ log' = log          \* pause / resume / restart / set-env / probe neither lose nor add anything
-P_Tamper(j) == up' /\ \A s \in Streams : Len(log'[s]) = Len(log[s])
+P_Quiet == up' /\ log' = log          \* pause / resume / restart / leader change / set-env / probe neither lose nor add anything
+P_Tamper == up' /\ \A r \in Reps : \A s \in Streams : Len(log'[r][s]) = Len(log[r][s])
 
 -----------------------------------------------------------------------------
 (* state invariants *)
-C17_NoPlaintext == \A j \in 1..Len(log["enc"]) : ~log["enc"][j].clear
+C17_NoPlaintext == \A r \in Reps : \A j \in 1..Len(log[r]["enc"]) : ~log[r]["enc"][j].clear
 C17_ServerUp == up
 
 TypeOK ==
   /\ up \in BOOLEAN /\ env \in Keys \cup {"bad"}
-  /\ hk["enc"] \in Keys /\ hk["plain"] = "none"
+  /\ \A s \in Streams : lead[s] \in Reps
+  /\ \A r \in Reps : hk[r]["enc"] \in Keys /\ hk[r]["plain"] = "none"
   /\ \A s \in Streams : paused[s] \in BOOLEAN
-  /\ \A s \in Streams : \A j \in 1..Len(log[s]) : log[s][j].k \in Keys \cup {"plain", "none"}
+  /\ \A r \in Reps : \A s \in Streams : \A j \in 1..Len(log[r][s]) : log[r][s][j].k \in Keys \cup {"plain", "none"}
 =============================================================================
